@@ -32,7 +32,9 @@ CLAIMED = {
          'For buffer sizes at each threshold (512..16384 plus the documented overheads) +-1 on each side independently and all three layouts, per protection mode and version, the harness checks on the real engines: the client requests exactly the length its buffers allow, an echo repeats the request, the negotiated flag equals the presence of the echo on the wire, a rewritten echo is refused, every record stays within 16384, the negotiated/requested length, the sender own limit and its output buffer, and forged conformant records of exactly the advertised length (CBC with 255 padding bytes) or exactly filling the input buffer are accepted while one just beyond it yields an error without any memory error.',
          'Sampled buffer/mode combinations; the engine-split layout is checked for consistency only (split point not visible to the caller); OpenSSL as MFL-aware independent peer is exercised in C01 only.'), 'C19': ('exploration', 'runtime monitoring: scenario scripts over seeded random schedules on real engines with stream, alert-count and renegotiation_info monitors fed by an independent record decoder; exhaustive transport cuts and alert injection against snapshotted receivers; br_sslio driven through callback-pumped peers',
          'Closure at random points of bidirectional exchanges, transport cut at every byte of a recorded stream, every alert level with strided descriptions in three framings at four phases, renegotiation by either side (quiescent, declined, refused by precondition, repeated, with data in flight) and the br_sslio wrapper are executed on the real code; oracles: data written before a close request arrives, nothing is delivered after it, one close_notify per side, clean closure has error 0 and truncation never has, fatal alerts are reported with their description, warnings leave the stream in order, renegotiation hellos are bound to the previous Finished values and change the keys without disturbing either stream. One engine limitation (application data crossing a renegotiation request fails the connection) is recorded in known_findings.json.',
-         'Peers lacking RFC 5746 support are not available on this image; alert descriptions are strided in the quick tier (all in thorough); sampled schedules.'),
+         'Peers lacking RFC 5746 support are not available on this image; alert descriptions are strided in the quick tier (all in thorough); sampled schedules.'), 'C10': ('exploration', 'runtime monitoring: differential oracle against OpenSSL BIGNUM/EVP/RSA under ASan/UBSan over fixture and generated keys, with forged encoded messages for strictness',
+         'For 16 fixture keys (512..4096 bits incl. 1016/1017/1025/2049, e in {3,17,65537,2^32+1}) x every RSA implementation (i15, i31, i32, i62, default): raw public/private operations against BN_mod_exp and as mutual inverses (plain, leading-zero and p<->q-swapped key views), PKCS#1 v1.5 signatures byte-identical to OpenSSL and cross-verified in both DigestInfo forms, PSS and OAEP and TLS premaster interop in both directions over all hash/MGF pairs, salt/label/message lengths; strictness by forging signatures/ciphertexts for altered encoded messages with the private key (every byte position in thorough) and by invalid keys/lengths; key generation and modulus/exponent recomputation checked with BIGNUM.',
+         'Trusts OpenSSL 3.0 libcrypto; keys sampled from committed fixtures (generated once with the openssl CLI) plus run-time keygen; some precondition violations are executed but not judged.'),
 }
 
 ENGINES = []
